@@ -27,4 +27,15 @@ def ofRet : Gen.C13.Ret → Except PyErr Num
 /-- `cflib.utils.encoding.fp16_to_float(float16)` for any Python int argument -/
 def fp16ToFloat (v : Int) : Except PyErr Num := ofRet (Gen.C13.fp16_to_float v)
 
+/-- The function as it is at /repo HEAD before the repair (defect D11): the zero, infinity and NaN branches
+`return int(...)`, i.e. hand the caller the binary32 *bit pattern as a Python int* instead of a float.
+All other patterns take the common path.  Kept for the counterexample theorem. -/
+def fp16ToFloatLive (v : Int) : Except PyErr Num :=
+  let s := Gen.C13.pyAnd (Gen.C13.shr v 15) 1
+  let e := Gen.C13.pyAnd (Gen.C13.shr v 10) 31
+  let f := Gen.C13.pyAnd v 1023
+  if e == 0 && f == 0 then .ok (.int (Gen.C13.shl s 31))
+  else if e == 31 then .ok (.int (Gen.C13.pyOr (Gen.C13.pyOr (Gen.C13.shl s 31) 0x7f800000) (Gen.C13.shl f 13)))
+  else fp16ToFloat v
+
 end CfVerif.C13
